@@ -674,6 +674,13 @@ def regions(F, R):
                         order = f.linear_nodes()
                         if ok and order.index(ri) < order.index(i): ok = False; why = 'next region dispatched before this one'
                 else: why = '%d cell invocations, %d recursive calls' % (len(disp), len(rec))
+                if ok:
+                    # must-pass: on every path this region is dispatched once and the recursion to the next region is reached once
+                    from rules_struct import tokens_on_paths
+                    di, ri = disp[0][0], rec[0][0]
+                    seqs = tokens_on_paths(f, lambda i, n: 'D' if i == di else 'R' if i == ri else None)
+                    if not all(s == ['D', 'R'] for s in seqs):
+                        ok = False; why = 'a path through the step of region %s runs %s (required: dispatch, then the next region): later regions and the machine-internal table are not offered the event' % (reg, sorted(set(''.join(s) for s in seqs)))
                 R.ob('C06.regions', ok, {'func': f.q, 'region': reg})
                 if not ok: R.find('C06.regions', f, 'step', 'region step: ' + why)
             elif rec and not disp:
@@ -878,6 +885,45 @@ def no_transition_contract(F, E, f, R, acc, be):
                 zero_ok = zero_ok and z; cont_ok = cont_ok and c
             if not zero_ok: ok = False; why = 'no_transition is reachable without the test "accumulated result is zero"'
             elif not cont_ok: ok = False; why = 'no_transition is reachable without the containment / direct-call test'
+    if ok and be == 'backmp11':
+        # which kinds of call report an unmatched event: a direct process_event and an event taken from the pool do, an event forwarded by
+        # the enclosing machine does not (that machine reports it).  The guarding conditions are evaluated for each process_info value.
+        from rules_struct import cond_facts
+        i, n = live[0]
+        INFO = {'direct_call': 0, 'submachine_call': 1, 'event_pool': 2}
+        def evi(nid, v):
+            m = f.nodes[nid] if nid else None
+            while m and m['k'] in ('icast', 'cast', 'paren'): m = f.nodes[m['e']]
+            if m is None: return None
+            if m['k'] == 'ref':
+                if m.get('dk') == 'param' and m['n'] == 'info': return v
+                if m.get('dk') == 'enum' and m['n'] in INFO: return m.get('v', INFO[m['n']])
+                return None
+            if m['k'] == 'un' and m['op'] == '!':
+                x = evi(m['e'], v); return None if x is None else int(not x)
+            if m['k'] == 'bin' and m['op'] in ('==', '!='):
+                a_, b_ = evi(m['lhs'], v), evi(m['rhs'], v)
+                if a_ is None or b_ is None: return None
+                return int((a_ == b_) == (m['op'] == '=='))
+            return None
+        reach_v = {}
+        for name, v in INFO.items():
+            r_ = False
+            for p in f.paths(edge_bound=1):
+                if i not in f.path_nodes(p): continue
+                good = True
+                cut = p[:next((k for k, b in enumerate(p) if i in f.bmap[b]['e']), len(p)) + 1]
+                for bi, b in enumerate(cut[:-1]):
+                    for c, t in cond_facts(f, f.bmap[b], cut[bi + 1]):
+                        cid = next((k for k, x in enumerate(f.nodes) if x is c), None)
+                        val = evi(cid, v) if cid is not None else None
+                        if val is not None and bool(val) != t: good = False
+                if good: r_ = True
+            reach_v[name] = r_
+        want = {'direct_call': True, 'event_pool': True, 'submachine_call': False}
+        if reach_v != want:
+            ok = False
+            why = 'an unmatched event is reported through no_transition for %s; required: for a direct call and for an event taken from the event pool, not for an event forwarded by the enclosing machine' % sorted(k for k, x in reach_v.items() if x)
     R.ob('C06.nt', ok, {'func': f.q, 'event': Facts.short(str(ev_t), 60)})
     if not ok: R.find('C06.nt', f, 'nt-contract', why)
     # who else may call no_transition: nobody in the back-end except do_process_event and the Kleene-defer "unknown type" paths
